@@ -3,6 +3,7 @@
 package checks
 
 import (
+	"context"
 	"fmt"
 	"math/big"
 	"strings"
@@ -10,6 +11,7 @@ import (
 
 	"github.com/vipnode/vipnode/v2/internal/verif/vh"
 	"github.com/vipnode/vipnode/v2/internal/verif/vsched"
+	"github.com/vipnode/vipnode/v2/pool"
 	"github.com/vipnode/vipnode/v2/pool/balance"
 	"github.com/vipnode/vipnode/v2/pool/store"
 )
@@ -310,6 +312,11 @@ func c02Slicing(driver string, shard, nshards int) vh.Unit {
 				accts := []string{W.Wallet}
 				before := vh.ReadLedger(pw.Store, nodes, accts)
 				updates := 0
+				// other things the client does in between must not move the billing: a peer request at
+				// the first step without a keep-alive; the first keep-alive of the run listing no peers
+				// (its peers stay tracked and active: it bills like any other)
+				distract := []string{"", "peer-request", "empty-list"}[(k/nshards)%3]
+				distracted := false
 				for step := 1; step <= steps; step++ {
 					vsched.Advance(unit)
 					for _, h := range hosts {
@@ -318,10 +325,21 @@ func c02Slicing(driver string, shard, nshards int) vh.Unit {
 						}
 					}
 					if step == steps || cuts&(1<<(step-1)) != 0 {
-						if _, err := pw.Update(C, hostIDs, uint64(step)); err != nil {
+						list := hostIDs
+						if distract == "empty-list" && !distracted && step < steps {
+							list, distracted = nil, true
+						}
+						if _, err := pw.Update(C, list, uint64(step)); err != nil {
 							fail("client keep-alive", err)
 						}
 						updates++
+					} else if distract == "peer-request" && !distracted {
+						distracted = true
+						if _, err := pw.Peer(context.Background(), C, 1, ""); err != nil {
+							if _, noHosts := err.(pool.NoHostNodesError); !noHosts {
+								fail("peer request", err)
+							}
+						}
 					}
 				}
 				after := vh.ReadLedger(pw.Store, nodes, accts)
